@@ -2,7 +2,7 @@
    Only ExtrOcamlBasic (bool, option, list, prod, unit, sumbool -> OCaml's own types);
    N, Z, positive, nat stay the extracted inductive types.  No Extract Constant. *)
 From Coq Require Extraction ExtrOcamlBasic.
-From Shred Require Import Base SrcParams Plan PlanObs PlanRec Exec ExecObs NestedObs Visit Fault World SysData Meta ParSeq Async Pool.
+From Shred Require Import Base SrcParams Plan PlanObs PlanRec Exec ExecObs NestedObs Visit Fault World SysData Meta ParSeq Async Pool PoolCells.
 Extraction Language OCaml.
 Extraction "extracted/model.ml"
   cap join_slack time_values tuple_arities params_source
@@ -20,4 +20,5 @@ Extraction "extracted/model.ml"
   mstep empty_mstate dedup_first mrun
   t_reads t_writes t_leaves build_panics par_ok tree_accept order_ok seq_trace
   acc_run acc_init
-  pool_can_rendezvous.
+  pool_can_rendezvous
+  build_root node_pools root_pool.
